@@ -356,6 +356,7 @@ def r7(ctx):
 
 
 def run(ctx):
+    scan_rule(ctx, "C13")
     r7(ctx)
     r1(ctx)
     r2(ctx)
